@@ -97,7 +97,7 @@ Lemma toy_bad_answers :
   /\ handle tO1 11 bad_circuit (orc 0 0 [] 0 0) = (tO1, [], None)
   /\ handle tO1 11 bad_auth (orc 0 0 [] 0 0) = (tO1, [], Some CryptoError)
   /\ handle tO1 11 bad_key (orc 0 0 [] 0 0) = (tO1, [], Some CryptoError)
-  /\ handle tO1 11 bad_point (orc 0 0 [] 0 0) = (schedule_rm tO1 7, [], None)
+  /\ handle tO1 11 bad_point (orc 0 0 [] 0 0) = (tO1, [], None)
   /\ same_hops tO3 (st (handle tO3 11 extended2 (orc 105 503 [] 0 0)))
   /\ same_hops tO3 (st (handle tO3 11 created1 (orc 105 503 [] 0 0))).
 Proof.
